@@ -57,8 +57,9 @@ def chain_map(func, field_suffix=None):
     return dict(chain_pairs(func, field_suffix))
 
 
-def chain_pairs(func, field_suffix=None):
-    """Same as chain_map but as a list of (literal, enumerator) pairs (one literal may be matched in several tables)."""
+def chain_pairs(func, field_suffix=None, with_block=False):
+    """Same as chain_map but as a list of (literal, enumerator) pairs (one literal may be matched in several tables); with_block adds the
+    id of the block that makes the comparison (to order the chain by reachability)."""
     out = []
     for b in func.blocks.values():
         t = b.term
@@ -98,7 +99,7 @@ def chain_pairs(func, field_suffix=None):
                 en = _enum_of(e["const"])
                 break
         if en:
-            out.append((lit, en))
+            out.append((lit, en, b.id) if with_block else (lit, en))
     return out
 
 
